@@ -159,6 +159,9 @@ impl Property for C10 {
         });
         Box::new(v.into_iter().chain(w))
     }
+    fn fuzz_plans(&self) -> Vec<(&'static str, u64)> {
+        vec![("history", 10000)]
+    }
     fn gen(&self, c: &mut Choices) -> Case {
         Case::Hist(history::gen_history(c, None))
     }
